@@ -592,10 +592,11 @@ Example example_claims_open_nonvacuous :
     h_wait h = [((cx_alice, 1), (19900, 0)); ((cx_bob, 1), (4975, 10000))] /\
     h_batch h = mkBatch 1 24875 10000 /\ h_hist h = [].
 Proof.
-  destruct (w_hub cx_w1) as [h|] eqn:E; [|vm_compute in E; discriminate].
+  unfold cx_w1.
+  destruct (w_hub (run_ops (cx_setup ++ cx_acts1) (empty_world 100))) as [h|] eqn:E;
+    [|vm_compute in E; discriminate].
   exists h. split; [reflexivity|].
-  pose proof (ClaimsInv_reachable 100 (cx_setup ++ cx_acts1) eq_refl) as HR. fold cx_w1 in HR.
-  destruct (HR h E) as [Ho HI]. clear HR.
+  destruct (ClaimsInv_reachable 100 (cx_setup ++ cx_acts1) eq_refl h E) as [Ho HI].
   split; [exact Ho|]. split; [exact HI|].
   vm_compute in E. inversion E; subst. repeat split.
 Qed.
@@ -607,9 +608,10 @@ Example example_claims_closed_nonvacuous :
     h_batch h = mkBatch 2 0 0 /\ get N.eqb (h_hist h) 1 = Some e /\
     he_bamt e = 25870 /\ he_samt e = 10000 /\ he_released e = false /\ he_time e = 1000031.
 Proof.
-  destruct (w_hub cx_w2) as [h|] eqn:E; [|vm_compute in E; discriminate].
-  pose proof (ClaimsInv_reachable 100 (cx_setup ++ cx_acts1 ++ cx_acts2) eq_refl) as HR. fold cx_w2 in HR.
-  destruct (HR h E) as [Ho HI]. clear HR.
+  unfold cx_w2.
+  destruct (w_hub (run_ops (cx_setup ++ cx_acts1 ++ cx_acts2) (empty_world 100))) as [h|] eqn:E;
+    [|vm_compute in E; discriminate].
+  destruct (ClaimsInv_reachable 100 (cx_setup ++ cx_acts1 ++ cx_acts2) eq_refl h E) as [Ho HI].
   vm_compute in E. inversion E; subst. eexists _, _. split; [reflexivity|]. split; [exact HI|].
   repeat split.
 Qed.
@@ -620,9 +622,10 @@ Example example_claims_paid_nonvacuous :
     h_wait h = [((cx_bob, 1), (4975, 10000))] /\
     get N.eqb (h_hist h) 1 = Some e /\ he_bamt e = 25870 /\ he_samt e = 10000 /\ he_released e = true.
 Proof.
-  destruct (w_hub cx_w3) as [h|] eqn:E; [|vm_compute in E; discriminate].
-  pose proof (ClaimsInv_reachable 100 _ cx_legacy_free) as HR. fold cx_w3 in HR.
-  destruct (HR h E) as [Ho HI]. clear HR.
+  unfold cx_w3.
+  destruct (w_hub (run_ops (cx_setup ++ cx_acts1 ++ cx_acts2 ++ cx_acts3) (empty_world 100))) as [h|] eqn:E;
+    [|vm_compute in E; discriminate].
+  destruct (ClaimsInv_reachable 100 _ cx_legacy_free h E) as [Ho HI].
   vm_compute in E. inversion E; subst. eexists _, _. split; [reflexivity|]. split; [exact HI|].
   repeat split.
 Qed.
